@@ -194,19 +194,27 @@ pub fn unbounded_async<T: Send>() -> (UnboundedAsyncSender<T>, UnboundedAsyncRec
 // Clone (Sync)
 impl<T: Send> Clone for Sender<T> {
   fn clone(&self) -> Self {
-    self.shared.internal.lock().sender_count += 1;
+    // a clone of a closed handle is closed too: it must not revive a disconnected channel
+    let closed = self.closed.load(Ordering::Relaxed);
+    if !closed {
+      self.shared.internal.lock().sender_count += 1;
+    }
     Sender {
       shared: Arc::clone(&self.shared),
-      closed: AtomicBool::new(false),
+      closed: AtomicBool::new(closed),
     }
   }
 }
 impl<T: Send> Clone for Receiver<T> {
   fn clone(&self) -> Self {
-    self.shared.internal.lock().receiver_count += 1;
+    // a clone of a closed handle is closed too: it must not revive a disconnected channel
+    let closed = self.closed.load(Ordering::Relaxed);
+    if !closed {
+      self.shared.internal.lock().receiver_count += 1;
+    }
     Receiver {
       shared: Arc::clone(&self.shared),
-      closed: AtomicBool::new(false),
+      closed: AtomicBool::new(closed),
     }
   }
 }
@@ -214,19 +222,27 @@ impl<T: Send> Clone for Receiver<T> {
 // Clone (Async)
 impl<T: Send> Clone for AsyncSender<T> {
   fn clone(&self) -> Self {
-    self.shared.internal.lock().sender_count += 1;
+    // a clone of a closed handle is closed too: it must not revive a disconnected channel
+    let closed = self.closed.load(Ordering::Relaxed);
+    if !closed {
+      self.shared.internal.lock().sender_count += 1;
+    }
     AsyncSender {
       shared: Arc::clone(&self.shared),
-      closed: AtomicBool::new(false),
+      closed: AtomicBool::new(closed),
     }
   }
 }
 impl<T: Send> Clone for AsyncReceiver<T> {
   fn clone(&self) -> Self {
-    self.shared.internal.lock().receiver_count += 1;
+    // a clone of a closed handle is closed too: it must not revive a disconnected channel
+    let closed = self.closed.load(Ordering::Relaxed);
+    if !closed {
+      self.shared.internal.lock().receiver_count += 1;
+    }
     AsyncReceiver {
       shared: Arc::clone(&self.shared),
-      closed: AtomicBool::new(false),
+      closed: AtomicBool::new(closed),
       state: Box::new(AtomicU8::new(STATE_WAITING)),
       is_registered: false,
     }
